@@ -47,4 +47,4 @@ def shard(ctx, budget_s):
 def run(tier, seed):
     v = core.Verdict(PROP, tier, seed)
     v.merge(core.run_shards(shard, PROP, tier, seed, budget_s=25 if tier == "quick" else 300))
-    return v.finish(RULE, floor=5000 if tier == "quick" else 50000, assumptions=ASSUME)
+    return v.finish(RULE, floor=500 if tier == "quick" else 5000, assumptions=ASSUME)
